@@ -305,10 +305,10 @@ def specificity(args):
             continue
         try:
             # a change is expected to be quiet for the property it was written to
-            # preserve; the batches r, s and v kept all outputs identical and are
+            # preserve; the batches r, s, v and R kept all outputs identical and are
             # cross-checked against the other checks too, the third batch ("may
             # alter behaviour the property does not constrain") only against its own
-            checks = REFACTOR_CHECKS.get(rid[:3], [rid[:3]]) if rid[3:4] in ("r", "s", "v") else [rid[:3]]
+            checks = REFACTOR_CHECKS.get(rid[:3], [rid[:3]]) if rid[3:4] in ("r", "s", "v", "R") else [rid[:3]]
             for chk in checks:
                 env = dict(os.environ)
                 env["VERIF_REPO"] = d
